@@ -798,6 +798,9 @@ class Context:
                 # characters alone
                 return '"' + text.translate(_JSON_ESCAPES) + '"'
 
+            # Objects and arrays being serialised right now (the path from the root)
+            open_holders = []
+
             # JSON text of a JS value; None where there is none (undefined,
             # functions): the holder decides what that means - null in an array,
             # no property in an object, undefined at the root
@@ -812,10 +815,17 @@ class Context:
                     return to_string(v) if math.isfinite(v) else "null"
                 if isinstance(v, str):
                     return quote(v)
-                if isinstance(v, JSArray):
-                    # For arrays, undefined becomes null
-                    return "[" + ",".join(serialize(e) or "null" for e in v._elements) + "]"
-                if isinstance(v, JSObject) and not isinstance(v, JSCallableObject):
+                if not isinstance(v, JSObject) or isinstance(v, JSCallableObject):
+                    return None
+                if any(v is holder for holder in open_holders):
+                    from .errors import JSTypeError
+
+                    raise JSTypeError("Converting circular structure to JSON")
+                open_holders.append(v)
+                try:
+                    if isinstance(v, JSArray):
+                        # For arrays, undefined becomes null
+                        return "[" + ",".join(serialize(e) or "null" for e in v._elements) + "]"
                     # For objects, skip undefined values
                     members = []
                     for k, val in v._properties.items():
@@ -823,7 +833,8 @@ class Context:
                         if text is not None:
                             members.append(quote(k) + ":" + text)
                     return "{" + ",".join(members) + "}"
-                return None
+                finally:
+                    open_holders.pop()
 
             text = serialize(value)
             return UNDEFINED if text is None else text
